@@ -491,7 +491,7 @@ fn replay(dir: &str, tier: &str) -> Value {
                     let modes: Vec<&str> = if thorough {
                         vec!["lit", "arrlit", "var", "fn", "fnu"]
                     } else {
-                        vec!["lit", if parity { "fn" } else { "fnu" }]
+                        vec!["lit", if parity { "fn" } else { "fnu" }, if (ri + bi) % 2 == 0 { "var" } else { "arrlit" }]
                     };
                     for mode in modes {
                         let program = slice_program(s, a, b, c, mode, parity);
